@@ -200,6 +200,53 @@ def run(ctx):
             violations.append({"replay": rp})
             break
     cov["busy_sessions"] = len(scripts)
+    # ---- every kind of move token after `position fen F moves`: all 4096 from-to strings, the suffixed and mis-suffixed
+    # promotion strings, truncated / over-long / decorated forms, on positions where a promotion, a castle, an en-passant
+    # capture or a check evasion is available: the engine must survive every one of them (readyok after each block)
+    mv_positions = ["8/P6k/8/8/8/8/8/K7 w - - 0 1", "1n5k/P7/8/8/8/8/8/K7 w - - 0 1", "k7/8/8/8/8/8/p6K/1N6 b - - 0 1",
+                    "r3k2r/8/8/8/8/8/8/R3K2R w KQkq - 0 1", "4k3/8/8/3pP3/8/8/8/4K3 w - d6 0 2", "4k3/8/8/8/8/8/4r3/4K3 w - - 0 1"]
+    sqs = [f + r for r in "12345678" for f in "abcdefgh"]
+    toks = [a + b for a in sqs for b in sqs]
+    promo = [a + b for a in sqs if a[1] in "27" for b in sqs if b[1] in "18" and abs(ord(a[0]) - ord(b[0])) <= 1]
+    toks += [t + x for t in promo for x in "qrbnkpQx1"]
+    toks += ["", "a", "a7", "a7a", "a7a8qq", "a7a8=Q", "a7-a8", "O-O", "0-0", "0000", "e1g1k", "e1h1", "A7A8", "a7a8 q", "a9a8", "i7a8", "a7a8\x00"]
+    if ctx["tier"] == "quick":
+        toks = [t for i, t in enumerate(toks) if len(t) != 4 or i % 4 == ctx["seed"] % 4 or t in promo]
+    token_lines = 0
+    for fen in mv_positions:
+        eng_p = uciproc.Engine()
+        culprit = None
+        try:
+            block = 400
+            for i in range(0, len(toks), block):
+                chunk = toks[i:i + block]
+                for t in chunk:
+                    eng_p.send("position fen %s moves %s" % (fen, t))
+                token_lines += len(chunk)
+                b0 = len(eng_p.lines())
+                eng_p.send("isready")
+                if eng_p.wait_for(lambda x: x == "readyok", 20, start=b0) is None:
+                    # find the token: replay the block one token per fresh process
+                    for t in chunk:
+                        e2 = uciproc.Engine()
+                        try:
+                            e2.send("position fen %s moves %s" % (fen, t))
+                            e2.send("isready")
+                            if e2.wait_for(lambda x: x == "readyok", 5) is None:
+                                culprit = t
+                                break
+                        finally:
+                            e2.kill()
+                    culprit = culprit or "(one of %d tokens in a block; not reproduced singly)" % len(chunk)
+                    break
+        finally:
+            eng_p.kill()
+        if culprit is not None:
+            rp = C.write_replay(prop, {"kind": "a move token after `position fen ... moves` kills or wedges the engine", "fen": fen, "token": culprit,
+                                       "replay_cmd": "printf 'position fen %s moves %s\\nisready\\n' | (cat; sleep 1) | %s" % (fen, culprit, C.ENGINE)})
+            violations.append({"replay": rp})
+            break
+    cov["move_token_lines"] = token_lines
     cov["pipe_sessions"] = sess_done
     cov["evaluations"] = len(lines) + sess_done
     cov["distinct_nontrivial"] = len(lines) - 1
@@ -207,7 +254,9 @@ def run(ctx):
                    "numbers) and every length-3 sequence starting with a parsing command (quick) / any word (thorough), plus a "
                    "grammar stream (valid commands with arguments dropped, duplicated, swapped, replaced): engine parser result vs "
                    "model, no panic; random sessions over the pipe ended by quit / closed stdin: readyok, exit status 0, exit within 5 s; "
-                   "sessions that keep a search running while go / stop / position / junk keep arriving: readyok during and after, quit obeyed")
+                   "sessions that keep a search running while go / stop / position / junk keep arriving: readyok during and after, quit obeyed; "
+                   "every from-to string and every (mis)suffixed promotion string as the move of a `position` command on promotion / castling / "
+                   "en-passant / in-check positions: readyok after every block")
     cov["samples"].append({"line": lines[-3], "engine": eng[-3] if eng else None})
     return SP.finish(prop, gate, violations, cov)
 
